@@ -260,3 +260,30 @@ def run(ctx):
             pass
     ndefs = len(f.defs(hist))
     ctx.ob('C16.5', f, 'history-append-only', not bad and ndefs <= 3, 'history vector `%s`: %d definition(s) (initialisation arms), shrinking calls: %s' % (f.lname(hist), ndefs, [b.name for b in bad]), line=bad[0].line if bad else f.line)
+    c167(ctx)
+
+
+def c167(ctx):
+    P = ctx.prog
+    ctx.rule('C16.7', 'the call id the harness answers under is the provider\'s, verbatim: in ToolCallCollector::observe the call_id and name of every collected FunctionCallItem derive from values read out of the event only — no formatted / concatenated / rewritten string (format!, push_str, replace, join, to_*case, trim_*) is among the values they are built from. An id the provider never emitted (`call_x_2`) cannot be matched to its call.')
+    ob = P.fn('ripd::session::ToolCallCollector::observe')
+    ctx.touch(ob)
+    BUILD = r'^alloc::fmt::format(::format_inner)?$|String::push_str$|::replace$|::replacen$|::join$|::concat$|::to_(lower|upper)case$|::to_ascii_(lower|upper)case$|::repeat$|alloc::string::String as core::ops::arith::Add'
+    built = {s_.dest['l']: s_ for s_ in ob.sites() if re.search(BUILD, s_.callee)}
+    # push_str mutates its receiver
+    for s_ in ob.calls(r'String::push_str$|String::push$|String::insert_str$'):
+        r = ob.root_local(s_.args[0], through_calls=(r'::deref_mut$',))
+        if r is not None:
+            built.setdefault(r, s_)
+    n = 0
+    for (bi, si, st) in ob.aggregates(r'FunctionCallItem$'):
+        rv = st['rv']
+        for fld in ('call_id', 'name'):
+            if fld not in rv['fields']:
+                continue
+            n += 1
+            rl = reads_locals(ob, rv['a'][rv['fields'].index(fld)])
+            hit = sorted(rl & set(built))
+            ctx.ob('C16.7', ob, 'verbatim:' + fld, not hit, 'FunctionCallItem.%s %s' % (fld, 'is built from values read out of the event only' if not hit else
+                   'is built through %s (line %d): the harness answers under an id / name the provider never sent' % (built[hit[0]].name, built[hit[0]].line)), line=st.get('ln'))
+    ctx.floor('C16.7', 'call_id / name fields of collected calls', n, 2)
